@@ -18,3 +18,16 @@ PROPS["C06"] = {
         "series identity = (type, name, tag multiset, source); tags that contain ',' or start with 's:' are excluded because two identities then render to one map key (documented exclusion)",
     ],
 }
+
+PROPS["C07"] = {
+    "pkg": "c07", "level": "exploration",
+    "jobs": {
+        "quick": [{"name": "merge", "run": "^TestMergeArrangements$", "checks": 4000, "shards": 8}],
+        "thorough": [{"name": "merge", "run": "^TestMergeArrangements$", "checks": 640000, "shards": 16, "timeout": 1700}],
+    },
+    "assumptions": [
+        "gauge ties: when several datapoints carry the newest timestamp any of their values is accepted",
+        "sampled counts compared with relative tolerance 1e-9 (floating-point addition is not associative)",
+        "inputs are deep-copied per arrangement (the production code hands ownership over)",
+    ],
+}
